@@ -44,6 +44,35 @@ def _jac_value_kind(v):
     return "unknown"
 
 
+class CopyClient(Client):
+    """interprets DiffRHS.__copy__ for an original in abstract state (initialised, jac, wrapped); the 4th component records whether the copy was
+    given the original's Jacobian (`<new>.hook_jacobian_call(self.__jac)`)"""
+
+    def transfer(self, st, state):
+        init, jac, wrapped, hooked = state
+        if isinstance(st, ast.Expr) and isinstance(st.value, ast.Call) and isinstance(st.value.func, ast.Attribute) and st.value.func.attr == "hook_jacobian_call" \
+                and not is_self_attr(st.value.func) and len(st.value.args) == 1 and is_self_attr(st.value.args[0], "__jac"):
+            hooked = True
+        return [(init, jac, wrapped, hooked)]
+
+    def branch(self, test, state):
+        init, jac, wrapped, hooked = state
+
+        def val(n):
+            t = src(n)
+            if t == "self.__jac_initialised":
+                return init
+            if t in ("self.__jac is None",):
+                return jac == "none"
+            if t == "self.__jac is not None":
+                return jac != "none"
+            if t in ("self.__jac_is_wrapped_rhs", "self.jac_is_wrapped_rhs"):
+                return wrapped
+            return None
+        r = tri_eval(test, val)
+        return ([state] if True in r else []), ([state] if False in r else [])
+
+
 class ProtoClient(Client):
     """state = (initialised, jac, wrapped)  with jac in {none, hook, rhsjac, fd, auto, unknown}"""
 
@@ -108,6 +137,9 @@ def protocol(repo, run):
         methods[name] = repo.get(DS, CLS + "." + name)
         run.analysed_fn(DS, methods[name])
     init_fn = repo.get(DS, CLS + ".__init__")
+    copy_fn = repo.maybe(DS, CLS + ".__copy__")
+    if copy_fn is not None:
+        run.analysed_fn(DS, copy_fn)
     # initial state from the constructor
     init_state = [False, "none", False]
     for st in walk_no_nested(init_fn):
@@ -169,6 +201,22 @@ def protocol(repo, run):
                 for e in ends:
                     if e not in seen:
                         work.append(e)
+            # copy.copy(rhs) -- what OdeSystem does with a DiffRHS argument: the copy must carry a user-supplied Jacobian in EVERY state of the original
+            if copy_fn is not None:
+                outc = Engine(CopyClient()).run(copy_fn, [s + (False,)])
+                for e in set(outc.normal) | {x for (x, n) in outc.ret}:
+                    cstate = (init_state[0], s[1], False) if e[3] else tuple(init_state)
+                    okc = not (s[1] == "hook" and cstate[1] != "hook")
+                    run.judged(rid, "state (init=%s, jac=%s, wrapped=%s) -> __copy__: copy starts in (init=%s, jac=%s, wrapped=%s)" % (s + cstate), ok=okc)
+                    if not okc and "copy" not in reported:
+                        reported.add("copy")
+                        path = _witness(methods, has, tuple(init_state), s)
+                        run.report("C16.1", DS, copy_fn, "a copy of a wrapper whose Jacobian was attached by hook / assignment does not carry it when the original is in state "
+                                                         "(initialised=%s, wrapped=%s): the copy differentiates numerically although a Jacobian is attached (OdeSystem copies the "
+                                                         "DiffRHS it is given); reachable by: %s" % (s[0], s[2], " ; ".join(path + ["copy.copy()"])),
+                                   text="copy drops hooked jacobian [state init=%s wrapped=%s]" % (s[0], s[2]))
+                    if cstate not in seen:
+                        work.append(cstate)
         total_states += len(seen)
     run.extra["abstract_states_explored"] = total_states
 
